@@ -514,3 +514,81 @@ def ob_fresh_run_after_a_resume_on_the_same_object(q: int, resumes: int, buffere
 
     got, want = native(scenario)
     return got == want
+
+
+# ----------------------------------------------------------------------------------------------- an ANSWERED wait across snapshot + resume
+class Answer02(Event):
+    v: int
+
+
+class _AskWF(Workflow):
+    """`ask` waits for an Answer02; once answered it works for a long while in its first life (that is where the run is interrupted) and
+    finishes at once in the resumed life — WITHOUT anybody sending the answer a second time"""
+
+    @step
+    async def ask(self, ctx: Context, ev: _StartEv) -> _StopEv:
+        import asyncio
+
+        a = await ctx.wait_for_event(Answer02, waiter_id="q")
+        if self.life[0] == 1:
+            await asyncio.sleep(1000)
+        return _StopEv(result=a.v)
+
+
+@obligation(quick=150, thorough=300, partitions_quick=[f"ta == {t}" for t in (0, 1, 2)], partitions_thorough=[f"ta == {t} and c == {c}" for t in (0, 1, 2) for c in (1, 2, 3)],
+            what="an event that a WAITING step was sent stays that step's wait result across ctx.to_dict() -> JSON -> Context.from_dict: the run is "
+                 "interrupted (cancel_run) after the awaited event resolved the wait and while the woken invocation is still working; the "
+                 "resumed run completes with the value of that event although nobody sends it again",
+            bounds={"answer sent at": "0..2", "interrupted": "1..3 after the answer"})
+def ob_answered_wait_survives_resume(ta: int, c: int) -> bool:
+    """
+    pre: 0 <= ta <= 2 and 1 <= c <= 3
+    post: _
+    """
+    import asyncio
+
+    import workflows.plugins.basic as basic_mod
+    import workflows.runtime.types.step_function as sf_mod
+    from vlib.h_idle import FakeTime
+    from vlib.miniloop import MiniLoop
+    from workflows.errors import WorkflowCancelledByUser
+
+    ta, c = conc(ta, 0, 2), conc(c, 1, 3)
+    life = [1]
+    loop = MiniLoop()
+    out: dict = {}
+
+    def mk():
+        w = _AskWF(timeout=None, runtime=basic_mod.BasicRuntime())
+        w.life = life
+        return w
+
+    async def main():
+        h1 = mk().run(run_id="r1")
+        await asyncio.sleep(ta)
+        h1.ctx.send_event(Answer02(v=42))
+        await asyncio.sleep(c)
+        await h1.cancel_run()
+        try:
+            out["first"] = ("finished", await h1)
+            return
+        except WorkflowCancelledByUser:
+            out["first"] = ("cancelled", None)
+        snap = _json.loads(_json.dumps(h1.ctx.to_dict()))
+        life[0] = 2
+        w2 = mk()
+        h2 = w2.run(ctx=Context.from_dict(w2, snap), run_id="r2")
+        try:
+            out["second"] = ("result", await asyncio.wait_for(h2, timeout=30))
+        except asyncio.TimeoutError:
+            out["second"] = ("HUNG", None)
+        except Exception as e:  # noqa: BLE001
+            out["second"] = ("error", repr(e))
+
+    saved = (basic_mod.time, sf_mod.time)
+    basic_mod.time = sf_mod.time = FakeTime(loop)
+    try:
+        loop.run_until_complete(main())
+    finally:
+        basic_mod.time, sf_mod.time = saved
+    return out.get("first") == ("cancelled", None) and out.get("second") == ("result", 42)
